@@ -182,9 +182,20 @@ def main(tier):
         replay_writer(v, "C01", runs, variants, "s20", "c01", ev,
                       stride_of=(lambda p: 1 if p["level"] == 5 and p["nrecip"] == 1 else (7 if not heavy else 3)))
     long_histories(v, tier, ev)
+    # a COUNT of files: thousands of small files, listed and read back
+    import json as _j, os as _os
+    nmany = 5000 if tier == "quick" else 70000
+    mo = _os.path.join(workdir("c01-many"), "many.json")
+    mbt("prod", "many", "roundtrip", mo, str(nmany), timeout=3000)
+    mres = _j.load(open(mo))
+    for viol in mres["violations"]:
+        v.violation(dict(check="many-files", kind=viol["kind"], stack=viol["stack"], op="finalize", name=None, src=None),
+                    dict(engine="many", mode="roundtrip", files=nmany, detail=viol["detail"]))
+    ev["many_files"] = dict(files=nmany, stacks_ok=mres["stacks_ok"])
+    log(f"[C01] {nmany} small files written, listed and sampled back under {mres['stacks_ok']}")
     replay_compwriter(v, tier, ev)
     replay_config(v, tier, ev)
-    cov = dict(states=ev.get("states", 0), transitions=ev.get("transitions", 0), long_histories=ev.get("long_histories"), compression_writer_model=ev.get("compwriter"), compression_writer_inductive=ev.get("compwriter_inductive"), configuration_model=ev.get("config"),
+    cov = dict(states=ev.get("states", 0), transitions=ev.get("transitions", 0), long_histories=ev.get("long_histories"), many_files=ev.get("many_files"), compression_writer_model=ev.get("compwriter"), compression_writer_inductive=ev.get("compwriter_inductive"), configuration_model=ev.get("config"),
                traces_validated_against_impl=ev.get("runs", 0), samples=ev.get("samples", [])[:3] or ["none"],
                edges_exported=ev.get("edges", 0), steps_replayed=ev.get("steps", 0),
                hidden_state_steps_compared=ev.get("hidden_compared", 0), archives_read_back=ev.get("readbacks", 0),
